@@ -170,6 +170,11 @@ def run(res, tier, seed, replay_script=None):
             cid = "r%d" % i
             specs[cid], scripts[cid] = gen_case(r, cid, tier)
         scripts = expand_deliveries(r, drv, wd, specs, scripts)
+        # one large wavelet grid per run: the iterative solver needs restarts only for systems of this size
+        specs["bigwav"] = {"family": "wavelet", "dims": 1, "outs": 1, "order": 1, "depth": 10}
+        scripts["bigwav"] = ["case bigwav", "make wavelet g 1 1 10 1", "load g smooth", "dump g meta pidx points values", "evalpts g"]
+        specs["bigwav2"] = {"family": "wavelet", "dims": 2, "outs": 1, "order": 1, "depth": 6}
+        scripts["bigwav2"] = ["case bigwav2", "make wavelet g 2 1 6 1", "load g smooth", "dump g meta pidx points values", "evalpts g"]
     lines = [l for cid in scripts for l in scripts[cid]]
     rc, cases, so, se = gl.run_scripts(drv, lines, wd, "hist", timeout=1500, case_timeout=20)
     if rc != 0:
@@ -233,12 +238,12 @@ def run(res, tier, seed, replay_script=None):
                     if err > TOL[fam]:
                         stats["violations"] += 1
                         key = "not-reproduced:%s:%s" % (fam, tag)
-                        if fam == "wavelet" and cur.get("ta") and spec.get("order") == 3:
+                        if fam == "wavelet" and cur.get("ta") and spec.get("order") in (1, 3):
                             # which loaded points fail?  (known finding: boundary nodes of a transformed domain)
                             bad = [i for i in range(cur["n"]) if max(abs(y[i * outs + k] - vals[i * outs + k]) for k in range(outs)) / scale > TOL[fam]]
                             onb = lambda i: any(cur["points"][i * d + j] in (cur["ta"][j], cur["tb"][j]) for j in range(d))
                             if bad and all(onb(i) for i in bad):
-                                key = "wavelet-order3-boundary-node-under-transform"
+                                key = "wavelet-order%d-boundary-node-under-transform" % spec.get("order")
                         if fam == "wavelet" and key.startswith("not-reproduced") and not wavelet_complete(spec.get("order", 1), d, cur["pidx"]):
                             key = "wavelet-incomplete-hierarchy-not-reproduced"
                         res.violation(key, "%s differs from the loaded values by %.3g (relative) at a loaded point [%s]" % (tag, err, scripts[cid][1]),
